@@ -80,8 +80,15 @@ def run(ctx):
         tree = _rand_tree(rng, rng.randint(1, 3), True)
         if not _leaves(tree):
             continue
-        mins = _map(lambda x: (onp.asarray(x) * 0 + onp.float32(rng.uniform(-5, 0))).astype(onp.float32), tree)
-        maxs = _map(lambda m: (m + onp.float32(rng.uniform(0.5, 6))).astype(onp.float32), mins)
+        if rng.random() < 0.25:
+            # tiny bound intervals (offset comparable to the width, so float32 keeps the normalised value to ~1e-6)
+            wd = 10.0 ** rng.uniform(-8, -5)
+            mins = _map(lambda x: (onp.asarray(x) * 0 + onp.float32(rng.uniform(0.5, 2) * wd)).astype(onp.float32), tree)
+            maxs = _map(lambda m: (m + onp.float32(rng.uniform(1, 3) * wd)).astype(onp.float32), mins)
+            res.count("tiny_interval")
+        else:
+            mins = _map(lambda x: (onp.asarray(x) * 0 + onp.float32(rng.uniform(-5, 0))).astype(onp.float32), tree)
+            maxs = _map(lambda m: (m + onp.float32(rng.uniform(0.5, 6))).astype(onp.float32), mins)
         xs = _map(lambda x: onp.clip(onp.asarray(x, dtype=onp.float32) / 3, -1, 1), tree)
         nchain = rng.randint(1, 3)
         res.evaluations += 1
@@ -102,11 +109,11 @@ def run(ctx):
             lx, ly, lb, llo, lhi, lmn, lmx = L(xs), L(ys), L(back), L(lo), L(hi), L(mins), L(maxs)
             case_desc = dict(kind="denormalize", mins=lmn, maxs=lmx, xs=lx)
             for i in range(len(lx)):
-                if not close(lb[i], lx[i], 1e-4, 1e-5):
+                if not close(lb[i], lx[i], 1e-4, 1e-4):
                     res.fail("denorm_inv", f"Denormalize.inv(apply(x)) != x: x={lx[i]} min={lmn[i]} max={lmx[i]} got {lb[i]}", case_desc)
-                if not close(llo[i], lmn[i], 1e-4, 1e-5) or not close(lhi[i], lmx[i], 1e-4, 1e-5):
+                if not close(llo[i], lmn[i], 1e-4, 1e-5 * (lmx[i] - lmn[i])) or not close(lhi[i], lmx[i], 1e-4, 1e-5 * (lmx[i] - lmn[i])):
                     res.fail("denorm_endpoints", f"Denormalize maps -1/+1 to {llo[i]}/{lhi[i]}, expected {lmn[i]}/{lmx[i]}", case_desc)
-                if not (lmn[i] - 1e-4 <= ly[i] <= lmx[i] + 1e-4):
+                if not (lmn[i] - 1e-4 * (lmx[i] - lmn[i]) <= ly[i] <= lmx[i] + 1e-4 * (lmx[i] - lmn[i])):
                     res.fail("denorm_range", f"Denormalize.apply({lx[i]}) = {ly[i]} outside [{lmn[i]}, {lmx[i]}]", case_desc)
             # monotone: x2 >= x
             xs2 = _map(lambda x: onp.minimum(onp.asarray(x) + onp.float32(0.25), 1), xs)
@@ -152,8 +159,9 @@ def run(ctx):
             metas.append(("chain", dict(apply=lcy, back=cb), cdesc))
 
             # ---- Extend: partial tree = tree with some leaves replaced by None
-            basep = _map(lambda x: onp.asarray(x, dtype=onp.float32), tree)
-            optp = _map(lambda x: None if rng.random() < 0.4 else (onp.asarray(x) + onp.float32(10)).astype(onp.float32), basep)
+            # base leaves may be integer-typed (python ints / int arrays) while the user supplies fractional values
+            basep = _map(lambda x: (onp.asarray(onp.round(onp.asarray(x)), dtype=onp.int32) if rng.random() < 0.3 else onp.asarray(x, dtype=onp.float32)), tree)
+            optp = _map(lambda x: None if rng.random() < 0.4 else (onp.asarray(x, dtype=onp.float32) + onp.float32(10.75)).astype(onp.float32), basep)
             if rng.random() < 0.3 and isinstance(optp, dict) and optp:  # None standing for a whole subtree
                 optp[rng.choice(sorted(optp))] = None
             E = base.Extend.init(basep, optp)
@@ -168,7 +176,7 @@ def run(ctx):
                         chk(b[i], None if o is None else o[i], e[i], path + str(i) + "/")
                 elif b is not None:
                     want = b if o is None else o
-                    if not onp.array_equal(onp.asarray(e), onp.asarray(want)):
+                    if not onp.array_equal(onp.asarray(e, dtype=onp.float64), onp.asarray(want, dtype=onp.float64)):
                         res.fail("extend", f"Extend.apply leaf {path}: got {e}, expected {'base' if o is None else 'supplied'} value {want}", dict(kind="extend", path=path))
 
             chk(basep, optp, ext)
